@@ -32,6 +32,7 @@ NONTRIVIAL = {
     "c04": lambda i: isinstance(i, dict) and len(i.get("files", [])) > 1,
     "c08": lambda i: isinstance(i, dict) and sum(len(f.get("msgs") or []) for f in i.get("files", [])) > 0,
     "c09": lambda i: isinstance(i, dict) and sum(len(f.get("msgs") or []) for f in i.get("files", [])) > 0,
+    "c07": lambda i: isinstance(i, dict) and len(i.get("walks") or []) > 1,
     "c15": lambda i: isinstance(i, dict) and len(i.get("name") or []) > 1,
 }
 
@@ -153,5 +154,13 @@ PROPS = {
         "rule": "curated worlds + seeded random protodesc-valid worlds (see C01: 1-5 files, import DAGs with public re-exports and unused imports, shared/nested/empty packages, both proto2 spellings and proto3, nesting depth <= 4, map entries interleaved among nested types, real/synthetic oneofs, all scalar kinds x labels x map keys, enum/message references to same file / direct imports / publicly re-exported files, recursion, extensions at file and message scope, services, SourceCodeInfo); observed: per message field: HasPresence/Required/InOneOf/InRealOneOf/HasOptionalKeyword plus protoreflect's HasPresence/Cardinality/ContainingOneof().IsSynthetic on the same descriptors; per oneof IsSynthetic (+protoreflect); per message IsMapEntry (+protoreflect) and the four listings; per file Syntax; non-trivial = world with at least one message (C04: at least 2 files)",
         "level_text": "THEOREMS PENDING (level exploration until proved): executable Lean model of ast.go's hydration and of the accessors compared with the real AST on every generated world; Phi_C09: presence iff in a oneof / singular message / singular proto2 / proto3-optional; required; real-vs-synthetic membership; synthetic oneof iff single proto3-optional member; listings partition the fields; proto2 spelled or omitted treated alike; pgs = protoreflect on every answer (HasOptionalKeyword is compared with the model only: protobuf defines it differently for proto2 oneof members and the property does not mention it) - evaluated on every observed AST.",
         "level_note": "Trusted: protodesc.NewFiles defines 'valid request'; descriptor pointer identity as entity identity; protoreflect (protobuf-go v1.23.0) as the reference for 'protobuf's own semantics'.",
+    },
+    "C07": {
+        "engines": [("c07", "main")],
+        "lean": ["PgsVerif.Props.C07"],
+        "category": "exploration",
+        "rule": "the C01 worlds x per world: every package with an always-descend visitor + 6 random start nodes (files, messages, enums, services, leaves; never inside a map entry) x random policies assigning same / replacement visitor / prune / (nil, err) / (v, err) to 0-40% of the entities, also through PassThroughVisitor and NilVisitor; the callback trace records (entity by descriptor identity, visitor id) and the returned error; non-trivial = at least 2 walks",
+        "level_text": "THEOREMS PENDING (level exploration until proved): executable Lean transcription of the ten accept methods compared with pgs.Walk; Phi_C07 = the trace equals the declarative pruned walk over the containment pre-order (kind order, declaration order, no map entries, contiguous subtrees, visitor handed down, prune skips exactly the contents, first error stops and is returned), evaluated on every observed trace.",
+        "level_note": "Trusted: protodesc validity of the worlds; descriptor pointer identity; visitors are modelled by their answers (policy), which covers stateful and replacement visitors.",
     },
 }
